@@ -253,8 +253,11 @@ def main_check(mod, tier, batch_seed, out=sys.stdout):
     # 5. evidence
     wall = time.monotonic() - t_start
     ev = build_evidence(mod, tier, batch_seed, jobs, done, reported, known_hits, info, wall, harness_errors)
-    os.makedirs(os.path.join(ROOT, 'evidence'), exist_ok=True)
-    with open(os.path.join(ROOT, 'evidence', f'{mod.PROPERTY}.json'), 'w') as f:
+    # evidence/ only ever describes runs against /repo itself; runs against another tree (ADSG_REPO=<scratch worktree>,
+    # used by bin/vseeded) write to the git-ignored scratch/ directory
+    ev_dir = 'evidence' if os.environ.get('ADSG_REPO', '/repo') == '/repo' else os.path.join('scratch', 'evidence')
+    os.makedirs(os.path.join(ROOT, ev_dir), exist_ok=True)
+    with open(os.path.join(ROOT, ev_dir, f'{mod.PROPERTY}.json'), 'w') as f:
         json.dump(ev, f, indent=1, default=str)
 
     for path, res, n in reported:
